@@ -47,6 +47,10 @@ fn any_prob() -> f64 {
 /// normalisation); threshold is any non-NaN f64.
 fn truncate_setup() -> (Game<u8, u8>, [f64; 4], [f64; 2], f64) {
     let g = game(&[2, 2], &[2], &[]);
+    truncate_inputs(g)
+}
+
+fn truncate_inputs(g: Game<u8, u8>) -> (Game<u8, u8>, [f64; 4], [f64; 2], f64) {
     let p1 = [any_prob(), any_prob(), any_prob(), any_prob()];
     let p2 = [any_prob(), any_prob()];
     kani::assume(p1[0] > 0.0 || p1[1] > 0.0);
@@ -116,5 +120,21 @@ fn c18_truncate_survivors() {
     check_block(&p1[0..2], &q1[0..2], h);
     check_block(&p1[2..4], &q1[2..4], h);
     check_block(&p2[0..2], &q2[0..2], h);
+    kani::cover!(p1[0] > h && !(p1[1] > h), "partial survival reachable");
+}
+
+/// smallest instance: one infoset of two actions for player one, nothing for player two
+#[kani::proof]
+#[kani::unwind(4)]
+fn c18_truncate_survivors_min() {
+    let g = game(&[2], &[], &[]);
+    let p1 = [any_prob(), any_prob()];
+    kani::assume(p1[0] > 0.0 || p1[1] > 0.0);
+    let h: f64 = kani::any();
+    kani::assume(!h.is_nan());
+    let mut s = Strategies { game: &g, probs: [Box::new(p1), Box::new([])] };
+    s.truncate(h);
+    let [q1, _] = &s.probs;
+    check_block(&p1[0..2], &q1[0..2], h);
     kani::cover!(p1[0] > h && !(p1[1] > h), "partial survival reachable");
 }
